@@ -242,6 +242,7 @@ impl StateMachine<'_> {
             let label = format_label(&self.config.file_modified_label);
             let name = get_repeated_file_path_from_diff_line(&self.diff_line).unwrap_or_default();
             let line = format!("{}{}", label, format_file(&name));
+            self.painter.emit()?;
             write_generic_diff_header_header_line(
                 &line,
                 &line,
@@ -253,6 +254,7 @@ impl StateMachine<'_> {
             && self.should_handle()
             && self.handled_diff_header_header_line_file_pair != self.current_file_pair
         {
+            self.painter.emit()?;
             self._handle_diff_header_header_line(self.source == Source::DiffUnified)?;
             self.handled_diff_header_header_line_file_pair
                 .clone_from(&self.current_file_pair);
